@@ -185,6 +185,8 @@ def all_hand_jobs(model, tier):
     jobs += aaf_listener_jobs(model, tier, 'le') + cvf_listener_jobs(model, tier, 'le')
     from handjobs7 import main_loop_jobs
     jobs += main_loop_jobs(model, tier, 'le')
+    from handjobs8 import crf_listener_jobs
+    jobs += crf_listener_jobs(model, tier, 'le')
     # ---- C14: the same contracts, re-verified for a big-endian host
     be = utils_jobs('be') + can_jobs(model, 'be') + vsspad_jobs(model, 'be')
     be += G.all_generated_jobs(model, 'be', formats=(['tscf', 'can', 'vss'] if tier == 'quick' else None))
